@@ -30,6 +30,7 @@ def run(ctx):
     from . import r_token as RK
     RT.grams_from_whole_words(ctx, "R04.h")
     RT.shared_generator(ctx, "R04.h")
+    RT.every_posting_counted(ctx, "R04.h")
     RK.lower_rules(ctx, "R04.i")
     RC17.chain_rule(ctx, "R04.g")
     from . import C10 as RC10
@@ -54,7 +55,7 @@ def run(ctx):
     _RR2.limit_provenance(ctx, "R06.a")
     from . import r_trigram as _RT4
     _RT4.unfinished_prefix_clip(ctx, "R04.o")
-    return info("R04.o: for an unfinished query word the Jaccard gate compares the WHOLE query word with the record prefix of min(query length + 1, record length). R06.a: the bounded selection keeps `limit` items at full width (a store no larger than the limit loses no hit to the cut). R04.n: the word-to-word alternative of text_match calls word_match on every path (no pre-test in front of the gates). R04.m: a hit with one matched word for a one-word query passes hit_matches whatever the match looks like (abstract run). R04.l: add_record really adds the record to the addressed store on every call (the registry API is not exercised by the repository's tests). Necessary constants for single-typo tolerance at the n=5 worst cases: length gate accepts 1-5/6, "
+    return info("R04.h also: every posting of every query gram is counted (a typo that leaves only the one-letter word start in common still makes the record a candidate). R04.o: for an unfinished query word the Jaccard gate compares the WHOLE query word with the record prefix of min(query length + 1, record length). R06.a: the bounded selection keeps `limit` items at full width (a store no larger than the limit loses no hit to the cut). R04.n: the word-to-word alternative of text_match calls word_match on every path (no pre-test in front of the gates). R04.m: a hit with one matched word for a one-word query passes hit_matches whatever the match looks like (abstract run). R04.l: add_record really adds the record to the addressed store on every call (the registry API is not exercised by the repository's tests). Necessary constants for single-typo tolerance at the n=5 worst cases: length gate accepts 1-5/6, "
                 "Jaccard gate accepts 1/2, the DL gate accepts c/5 for every edit-cost constant c, every cost <= 1.0, "
                 "gate shapes (1-min/max, dist/max) are confirmed before the bounds are applied, and the prefix-pair "
                 "tolerance admits a length difference of one.")
